@@ -863,6 +863,24 @@ func c16(run *ev.Run, tier string) {
 				}
 			}
 		}
+		// references to variables that are not set expand to nothing, through the
+		// command as through the library: the field is empty, the list item is gone
+		yu := "name: envunset\narch: amd64\nversion: 1.0.0\nmaintainer: \"M <m@example.com>\"\ndescription: d${VERIF_C16_UNSET_DESC}\nhomepage: ${VERIF_C16_UNSET_HOME}\nmtime: 2017-07-14T02:40:00Z\ndepends:\n  - libc6\n  - ${VERIF_C16_UNSET_DEP}\ncontents:\n  - src: " + src + "\n    dst: /opt/envunset/p.txt\n"
+		cfgu := filepath.Join(cdir, "unset.yaml")
+		_ = os.WriteFile(cfgu, []byte(yu), 0o644)
+		targetU := filepath.Join(cdir, "unset.deb")
+		run.Case("cli-references-to-unset-variables", true)
+		if so, se, code, err := runCmd(nil, cdir, env, bin, "package", "-f", cfgu, "-p", "deb", "-t", targetU); err != nil || code != 0 {
+			run.Violate("C16/cli/build-failed/references-to-unset-variables", map[string]any{"exit": code, "output": ev.Short(string(so)+string(se), 300)})
+		} else {
+			raw, _ := os.ReadFile(targetU)
+			p := dec.Decode("deb", raw, false)
+			for field, want := range map[string]string{"Description": "d", "Homepage": "", "Depends": "libc6"} {
+				if got, _ := p.MetaGet(field); got != want {
+					run.Violate("C16/cli/unset-variable-not-expanded-to-nothing", map[string]any{"field": field, "got": got, "want": want})
+				}
+			}
+		}
 		plain := strings.NewReplacer("${VERIF_C16_MAINT}", "\"M <m@example.com>\"", "${VERIF_C16_DESC}", "d", "${VERIF_C16_HOME}", "https://example.com", "${VERIF_C16_DEP}", "libfoo").Replace(y)
 		for _, probe := range []struct{ name, doc string }{
 			{"top-level", plain + "verif_unknown_key: 1\n"},
